@@ -2,12 +2,41 @@
 from monkeytype.config import DefaultConfig
 from monkeytype.db.sqlite import SQLiteStore
 
-STATE = {"k": None, "db": None, "rewriter": "default", "filter": None, "sample_rate": None, "limit": None}
+STATE = {"k": None, "db": None, "rewriter": "default", "filter": None, "sample_rate": None, "limit": None, "bare_thunks": False}
+
+
+class _BareThunk:
+    """A thunk with nothing but the documented interface (CallTraceThunk promises to_trace() only)."""
+
+    __slots__ = ("_t",)
+
+    def __init__(self, t):
+        self._t = t
+
+    def to_trace(self):
+        return self._t.to_trace()
+
+
+class _BareStore:
+    """The configured SQLite store behind a store of the project's own whose filter() hands out bare thunks."""
+
+    def __init__(self, inner):
+        self.inner = inner
+
+    def add(self, traces):
+        return self.inner.add(traces)
+
+    def filter(self, module, qualname_prefix=None, limit=2000):
+        return [_BareThunk(t) for t in self.inner.filter(module, qualname_prefix, limit)]
+
+    def list_modules(self):
+        return self.inner.list_modules()
 
 
 class Cfg(DefaultConfig):
     def trace_store(self):
-        return SQLiteStore.make_store(STATE["db"])
+        st = SQLiteStore.make_store(STATE["db"])
+        return _BareStore(st) if STATE.get("bare_thunks") else st
 
     def max_typed_dict_size(self):
         if STATE["k"] is None:
@@ -37,7 +66,7 @@ CONFIG = Cfg()
 
 
 def reset(**kw):
-    STATE.update({"k": None, "db": None, "rewriter": "default", "filter": None, "sample_rate": None, "limit": None})
+    STATE.update({"k": None, "db": None, "rewriter": "default", "filter": None, "sample_rate": None, "limit": None, "bare_thunks": False})
     STATE.update(kw)
 
 
@@ -65,7 +94,8 @@ class Frozen(Cfg):
         return ctx()
 
     def trace_store(self):
-        return SQLiteStore.make_store(self._st["db"])
+        st = SQLiteStore.make_store(self._st["db"])
+        return _BareStore(st) if self._st.get("bare_thunks") else st
 
     def max_typed_dict_size(self):
         k = DefaultConfig.max_typed_dict_size(self) if self._st["k"] is None else self._st["k"]
